@@ -21,7 +21,7 @@ struct token tok;
 
 /* ---- ghost inputs of the declaration being parsed ---- */
 static enum storageclass g_sc; static enum funcspec g_fs;
-static bool g_hasprior, g_hasbody, g_hasinit;
+static bool g_hasprior, g_hasbody, g_hasinit, g_empty;
 static struct decl g_prior, g_new, *g_d;
 static struct type t_fn, t_obj, t_ret, t_par; static struct decl g_param;
 static char nm[2] = "f";
@@ -39,7 +39,7 @@ stub_declspecs(struct scope *s, enum storageclass *sc, enum funcspec *fs, int *a
 {
 	struct qualtype q = {V_FUNC ? &t_ret : &t_obj, QUALNONE, 0};
 	*sc = g_sc; *fs = g_fs; *align = 0;
-	tok.kind = TIDENT;
+	tok.kind = g_empty ? TSEMICOLON : TIDENT;
 	return q;
 }
 struct qualtype
@@ -87,7 +87,7 @@ bool typesame(struct type *a, struct type *b) { return a == b; }
 void
 harness(void)
 {
-	IN(int, in_sc); IN(int, in_fs); IN(bool, in_hasprior); IN(bool, in_body); IN(bool, in_init); IN(bool, in_parinc);
+	IN(int, in_sc); IN(int, in_fs); IN(bool, in_hasprior); IN(bool, in_body); IN(bool, in_init); IN(bool, in_parinc); IN(bool, in_empty); IN(bool, in_tag);
 	IN(int, in_linkage); IN(bool, in_prior_inline); IN(bool, in_prior_defined); IN(bool, in_prior_tentative);
 	struct decl **end0;
 	bool r;
@@ -112,10 +112,17 @@ harness(void)
 	tentativedefns = 0; tentativedefnsend = &tentativedefns;
 	end0 = tentativedefnsend;
 	tok.kind = TINT;
+	g_empty = !V_FUNC && in_empty;
+	if (g_empty) { t_obj.kind = in_tag ? TYPESTRUCT : TYPEINT; }
 
 	r = decl(&filescope, 0);
 
 	__CPROVER_assert(r, "a declaration was parsed");
+	if (g_empty) {
+		__CPROVER_assert(in_tag, "C11 6.7p2: a declaration shall declare at least a declarator, a tag, or the members of an enumeration: `int;` is diagnosed, `struct S;` is not");
+		__CPROVER_assert(n_define == 0 && n_emit == 0 && tentativedefnsend == end0, "and declares no object or function");
+		return;
+	}
 #if V_FUNC
 	{
 		bool want_inline = g_d->linkage == LINKEXTERN && (in_fs & FUNCINLINE) && !(in_sc & SCEXTERN) && (!in_hasprior || in_prior_inline);
